@@ -42,13 +42,16 @@ def diffStep (remaining : List BoundSet) (righty : BoundSet) : Option (List Boun
 def diffAlt (lefty : BoundSet) (other : Range) : Option (List BoundSet) :=
   other.foldl (fun rem righty => rem.bind (diffStep · righty)) (some [lefty])
 
-/-- `Range::difference`; outer `none` = panic -/
-def Range.difference (a b : Range) : Option (Option Range) :=
-  let pieces := a.foldr (fun lefty acc =>
+/-- all remainders, alternative by alternative of `a`; `none` = panic -/
+def diffPieces (a b : Range) : Option (List BoundSet) :=
+  a.foldr (fun lefty acc =>
     match diffAlt lefty b, acc with
     | some l, some rest => some (l ++ rest)
     | _, _ => none) (some [])
-  pieces.map (fun p => if p.isEmpty then none else some p)
+
+/-- `Range::difference`; outer `none` = panic -/
+def Range.difference (a b : Range) : Option (Option Range) :=
+  (diffPieces a b).map (fun p => if p.isEmpty then none else some p)
 
 /-- `Range::max_satisfying` as an index into the slice -/
 def Range.maxSatisfying (r : Range) (vs : List Version) : Option Version :=
